@@ -538,6 +538,175 @@ def describe(rep, case):
         rep.dist("typedef_order:several_dimensions")
 
 
+# ------------------------------------------------------------------------------------
+# PASS-THROUGH MEASURES WITH INSERTIONS: means / medians / stddev (NaN subtotals), sums (sums of the
+# addends, NaN for a difference in either direction), unweighted counts (sums; NaN differences iff
+# the response carries valid counts) - Model/Subtotals.v nan_blocks / sum_blocks, Model/Proportions.v
+# count_blocks (the definitions C01_gen_Means / _Sums / _UnweightedCounts tie to matrix/measure.py and
+# stripe/measure.py) on the BASE block the implementation reports.
+# ------------------------------------------------------------------------------------
+
+INS_IMPORTS = """From Coq Require Import QArith ZArith List Bool.
+From CC Require Import Base.XQ Base.Render Base.ListX Model.Subtotals Model.Proportions Model.BaseBlocks.
+Import ListNotations."""
+INS_KIND = {"means": 0, "medians": 0, "stddev": 0, "sums": 1, "unweighted_counts": 2}
+INS_PAIRS = [("cat", "cat"), ("cat", "cat"), ("cat", "cat_date"), ("cat_date", "cat"), ("cat", "mr"), ("mr", "cat")]
+
+
+def gen_ins_case(rng, k):
+    from harness.props import common_cases as cc
+    meas = ("count",) + tuple(rng.sample(["mean", "sum", "stddev", "median"], rng.randint(1, 4)))
+    case = cc.gen_slice_case(rng, k, p_strand=0.25, p_insert=0.95, measures=meas, numvar="x",
+                             valid_counts_p=0.25, kinds2d=INS_PAIRS, kinds1d=["cat", "cat", "cat_date"],
+                             n_resp=(3, 30))
+    case["pass_insertions"] = True
+    return case
+
+
+def g_subpairs(ss):
+    return core.g_list(["(%s, %s)" % (core.g_list([core.g_nat(i) for i in a]),
+                                       core.g_list([core.g_nat(i) for i in b])) for a, b in ss])
+
+
+def _subs(dim):
+    return [(list(map(int, x.addend_idxs)), list(map(int, x.subtrahend_idxs))) for x in dim.subtotals]
+
+
+def ins_jobs(case):
+    res = impl.guarded(lambda: impl.partition(case["response"], case["transforms"]))
+    if res[0] != "ok":
+        return [{"what": "exception", "impl": res[1:]}], []
+    p = res[1]
+    meas = case["response"]["result"]["measures"]
+    names = [pub for m, pub in cu.NUMERIC_NAMES.items() if m in meas] + ["unweighted_counts"]
+    dn = "valid_count_unweighted" in meas
+    fails, jobs = [], []
+    tn = type(p).__name__
+    if tn == "_Strand":
+        info = impl.guarded(lambda: (impl.dims_info(p), _subs(p._rows_dimension), list(p.row_order())))
+        if info[0] != "ok":
+            return [{"what": "subtotal-introspection", "impl": info[1:], "no_impl": True}], []
+        (n, ns), subs, ro = info[1]
+        if ns == 0:
+            return [], []
+        for pub in names:
+            r = impl.get(p, pub)
+            if r[0] != "ok":
+                fails.append({"what": pub, "impl": r[1:]})
+                continue
+            b = impl.guarded(lambda: impl.blocks1d(r[1], ro, n, ns))
+            if b[0] != "ok":
+                fails.append({"what": pub + ":blocks", "impl": b[1:], "no_impl": True})
+                continue
+            kind = INS_KIND[pub]
+            if kind == 2 and dn:
+                continue          # strand counts of a valid-count response: C04's ground (open finding there)
+            jobs.append(("r_pass_strand %s %s %s" % (core.g_nat(kind), core.g_vec(b[1][0]), g_subpairs(subs)),
+                         {"strand": True, "what": pub, "impl": b[1][1], "subs": subs}))
+        return fails, jobs
+    if tn != "_Slice":
+        return [], []
+    info = impl.guarded(lambda: (impl.dims_info(p), _subs(p._dimensions[0]), _subs(p._dimensions[1]),
+                                 list(p.row_order()), list(p.column_order())))
+    if info[0] != "ok":
+        return [{"what": "subtotal-introspection", "impl": info[1:], "no_impl": True}], []
+    (nr, nrs, nc, ncs), rsubs, csubs, ro, co = info[1]
+    if nrs + ncs == 0:
+        return [], []
+    for pub in names:
+        r = impl.get(p, pub)
+        if r[0] != "ok":
+            fails.append({"what": pub, "impl": r[1:]})
+            continue
+        b = impl.guarded(lambda: impl.blocks2d(r[1], ro, co, nr, nc, nrs, ncs))
+        if b[0] != "ok":
+            fails.append({"what": pub + ":blocks", "impl": b[1:], "no_impl": True})
+            continue
+        jobs.append(("r_pass_blocks %s %s %s %s %s %s %s" % (
+            core.g_nat(INS_KIND[pub]), core.g_bool(dn), core.g_nat(nr), core.g_nat(nc),
+            g_subpairs(rsubs), g_subpairs(csubs), core.g_mat(b[1][0][0])),
+            {"strand": False, "what": pub, "blocks": b[1], "rsubs": rsubs, "csubs": csubs}))
+    return fails, jobs
+
+
+def ins_compare(toks, exp):
+    d = core.Dec(toks)
+    fails = []
+    if exp["strand"]:
+        model = d.vec()
+        assert d.done()
+        if not core.close_vec(exp["impl"], model):
+            fails.append({"what": exp["what"] + ":subtotal-values", "impl": exp["impl"], "model": model,
+                          "subtotals": exp["subs"], "oracle": "model"})
+        return fails
+    mcols, mrows, minter = d.mat(), d.mat(), d.mat()
+    assert d.done()
+    blk = exp["blocks"]
+    for what, got, model in (("subtotal-columns", blk[0][1], mcols), ("subtotal-rows", blk[1][0], mrows),
+                             ("intersections", blk[1][1], minter)):
+        if not core.close_mat(got, model):
+            if sum(len(r) for r in got) == 0 and sum(len(r) for r in model) == 0:
+                continue
+            fails.append({"what": "%s:block:%s" % (exp["what"], what), "impl": got, "model": model,
+                          "row_subtotals": exp["rsubs"], "column_subtotals": exp["csubs"], "oracle": "model"})
+    return fails
+
+
+def run_ins_cases(cases, tag="ins"):
+    out, all_jobs = [], []
+    for case in cases:
+        fails, jobs = ins_jobs(case)
+        out.append((case, fails))
+        all_jobs.append(jobs)
+    flat = [t for jobs in all_jobs for (t, _e) in jobs]
+    results, coq_s = core.run_coq_cases(PID, INS_IMPORTS, flat, shard=60, tag=tag) if flat else ([], 0.0)
+    pos = 0
+    for (case, fails), jobs in zip(out, all_jobs):
+        for (_t, exp), toks in zip(jobs, results[pos:pos + len(jobs)]):
+            fails.extend(ins_compare(toks, exp))
+        pos += len(jobs)
+    return out, len(flat), coq_s
+
+
+def ins_replayable(case):
+    from harness.props import common_cases as cc
+    return dict(cc.replayable(case), pass_insertions=True)
+
+
+# ------------------------------------------------------------------------------------
+# READ-ORDER leg (common_cases.late_reads): counts and the numeric measures read after every other
+# public property of a second partition are the ones of a fresh partition.
+# ------------------------------------------------------------------------------------
+
+def late_read_fails(case, max_parts=2):
+    import copy
+    from harness.props import common_cases as cc
+    if case.get("ca_as_0th"):
+        return [], 0
+    res = impl.guarded(lambda: impl.cube(case["response"]).partitions)
+    if res[0] != "ok":
+        return [], 0
+    meas = case["response"]["result"]["measures"]
+    names = ["counts", "unweighted_counts"] + [pub for m, pub in cu.NUMERIC_NAMES.items() if m in meas]
+    fails, n = [], 0
+    for pidx, p in enumerate(res[1][:max_parts]):
+        if type(p).__name__ not in ("_Slice", "_Strand"):
+            continue
+        fresh = {}
+        for nm in names:
+            r = impl.get(p, nm)
+            fresh[nm] = (r[0], copy.deepcopy(r[1])) if r[0] == "ok" else r
+        population, late = cc.late_reads({"response": case["response"], "transforms": None,
+                                          "k": 1000 * int(case.get("k", 0)) + pidx},
+                                         names, fresh, transforms=None, k=pidx)
+        n += 1
+        for nm, a, b, culprits in late[:1]:
+            fails.append({"what": "%s depends on what was read before" % nm, "part": pidx, "fresh": a,
+                          "after_other_reads": b, "population": population,
+                          "single_earlier_reads_that_change_it": culprits, "oracle": "order_independent"})
+    return fails, n
+
+
 def gen_cases(tier, seed):
     """the std cases come first and from their own stream, so that they are the cases the check
     always ran; the new families draw from streams of their own"""
@@ -591,6 +760,32 @@ def run(tier, seed):
             ctx = {"what": f.get("what"), "class": case_class(case)}
             rep.violation("impl-vs-model" if f.get("oracle") != "survey" else "impl-vs-survey",
                           cu.replayable(case), f, ctx, failing_input=not f.get("no_impl"))
+    # ---- pass-through measures WITH insertions (own stream) ----
+    n_ins = 110 if tier == "quick" else 1600
+    rng_i = random.Random(seed * 7 + 5)
+    ins_cases = [gen_ins_case(rng_i, 900000 + k) for k in range(n_ins)]
+    ins_res, n_ins_terms, coq_i = run_ins_cases(ins_cases)
+    for case, fails in ins_res:
+        rep.count_case(ins_replayable(case), True)
+        rep.dist("pass-insertions:" + ("strand" if case["strand"] else "x".join(str(x) for x in case["kinds"])))
+        if case["valid_counts"]:
+            rep.dist("pass-insertions:valid_counts")
+        for f in fails:
+            ctx = {"what": f.get("what"), "class": "pass-insertions"}
+            rep.violation("impl-vs-model", ins_replayable(case), f, ctx, failing_input=not f.get("no_impl"))
+    rep.cov["pass_insertion_terms_evaluated"] = n_ins_terms
+    coq_s += coq_i
+    # ---- read order: every third std / typed / tdorder case, up to two partitions ----
+    n_late = 0
+    for case in cases:
+        if case["k"] % 3 or family(case) in ("numarr", "nub") or not nontrivial(case):
+            continue
+        fails, n = late_read_fails(case)
+        n_late += n
+        for f in fails:
+            ctx = {"what": f.get("what"), "class": case_class(case), "leg": "late-reads"}
+            rep.violation("impl-vs-property", dict(cu.replayable(case), late_reads=True), f, ctx)
+    rep.cov["late_read_partitions"] = n_late
     rep.cov["rule"] = (
         "cases from random.Random(seed): surveys of 0..30 respondents (dyadic weights incl. 0, or "
         "unweighted) over 1-3 variables of kind cat / cat_date / mr (per-item sel|other|missing) / "
@@ -636,7 +831,22 @@ def replay(path):
     if d["violation"].get("kind") in core.OBLIGATION_KINDS:  # a broken obligation, no input to re-run
         return core.replay_obligations(PID, d)
     case = d["violation"]["case"]
+    if case.get("pass_insertions"):
+        res, _n, _s = run_ins_cases([case], tag="replay")
+        fails = [f for _c, fs in res for f in fs]
+        for f in fails:
+            print("REPLAY still fails:", json.dumps(core.jsonable(f))[:600])
+        if not fails:
+            print("REPLAY: no longer fails")
+        return 1 if fails else 0
     finish_case(case)
+    if case.get("late_reads"):
+        fails, _n = late_read_fails(case)
+        for f in fails:
+            print("REPLAY still fails:", json.dumps(core.jsonable(f))[:600])
+        if not fails:
+            print("REPLAY: no longer fails")
+        return 1 if fails else 0
     io, terms = build(case, case["perm"] is None)
     results, _ = core.run_coq_cases(PID, sh.IMPORTS, [t for (_k, t) in terms], tag="replay")
     fails = compare(case, io, terms, results)
